@@ -906,6 +906,25 @@ pub fn scenario_chain_through_unconflicted(ts_join: u64, ts_leave: u64) -> Resol
     case_from(6, evs, &[&["$c", "$ja", "$p2", "$jb", "$j1", "$jc"], &["$c", "$ja", "$p1", "$lb", "$j1", "$jc"]])
 }
 
+/// Two moderators (level 50, neither is the creator) send concurrent power-levels events on two
+/// forks; every event lists the create event before the power-levels event in `auth_events`.
+/// The reverse topological power ordering must give both senders level 50 whatever order the
+/// power-event graph is enumerated in.
+pub fn scenario_concurrent_moderators(ts_b: u64, ts_c: u64) -> ResolveCase {
+    let pl = |extra: &str| format!(r#"{{"users":{{"@alice:a":100,"@bob:b":50,"@carol:c":50}}{extra}}}"#);
+    let evs = vec![
+        mk("$c", "@alice:a", "m.room.create", "", r#"{"creator":"@alice:a","room_version":"6"}"#, 1, &[]),
+        mk("$ja", "@alice:a", "m.room.member", "@alice:a", JOIN, 2, &["$c"]),
+        mk("$jr", "@alice:a", "m.room.join_rules", "", r#"{"join_rule":"public"}"#, 3, &["$c", "$ja"]),
+        mk("$jb", "@bob:b", "m.room.member", "@bob:b", JOIN, 4, &["$c", "$jr"]),
+        mk("$jc", "@carol:c", "m.room.member", "@carol:c", JOIN, 5, &["$c", "$jr"]),
+        mk("$p1", "@alice:a", "m.room.power_levels", "", &pl(""), 6, &["$c", "$ja"]),
+        mk("$pb", "@bob:b", "m.room.power_levels", "", &pl(r#","invite":50"#), ts_b, &["$c", "$p1", "$jb"]),
+        mk("$pc", "@carol:c", "m.room.power_levels", "", &pl(r#","kick":40"#), ts_c, &["$c", "$p1", "$jc"]),
+    ];
+    case_from(6, evs, &[&["$c", "$ja", "$jr", "$jb", "$jc", "$pb"], &["$c", "$ja", "$jr", "$jb", "$jc", "$pc"]])
+}
+
 // ---------------------------------------------------------------------------------------------
 // streams
 // ---------------------------------------------------------------------------------------------
@@ -1071,6 +1090,7 @@ pub fn run(tier: &str, seed: u64, em: &mut Emitter) {
     for tx in [5u64, 10, 20] {
         for ty in [5u64, 10, 20] {
             emit_resolve(em, "systematic", &scenario_mainline(tx, ty));
+            emit_resolve(em, "systematic", &scenario_concurrent_moderators(tx, ty));
             emit_resolve(em, "systematic", &scenario_chain_through_unconflicted(tx, ty));
         }
     }
